@@ -837,6 +837,11 @@ func filterPhone2numeric(in *Value, param *Value) (*Value, *Error) {
 func filterPluralize(in *Value, param *Value) (*Value, *Error) {
 	if in.IsNumber() {
 		// Works only on numbers
+		isOne := in.Integer() == 1
+		if in.IsFloat() {
+			// (1.5 is not one, although Integer() truncates it to 1)
+			isOne = in.Float() == 1
+		}
 		if param.Len() > 0 {
 			endings := strings.Split(param.String(), ",")
 			if len(endings) > 2 {
@@ -847,18 +852,18 @@ func filterPluralize(in *Value, param *Value) (*Value, *Error) {
 			}
 			if len(endings) == 1 {
 				// 1 argument
-				if in.Integer() != 1 {
+				if !isOne {
 					return AsValue(endings[0]), nil
 				}
 			} else {
-				if in.Integer() != 1 {
+				if !isOne {
 					// 2 arguments
 					return AsValue(endings[1]), nil
 				}
 				return AsValue(endings[0]), nil
 			}
 		} else {
-			if in.Integer() != 1 {
+			if !isOne {
 				// return default 's'
 				return AsValue("s"), nil
 			}
